@@ -86,6 +86,18 @@ CHECKS['C10'] = dict(
    note='Trusted: Coq kernel + vm_compute; translator py2v (is_price_near); Model/Routing.v (hand-written); harness/c10.py, driver.py, engine.py. The '
         'should_cancel_entry clause and market-routed exits are covered by the trace monitors only (search), not by a theorem.',
    tech='Rocq proof (routing theorems over regenerated kernel; invariant over all op sequences) + correspondence + trace monitors', ref='DESIGN.md section 6 (C10)')
+CHECKS['C09'] = dict(
+   text='Machine-checked theorems over the liquidation_price / bankruptcy_price / candle_includes_price kernels REGENERATED from /repo each run: for every '
+        'leverage 1..125 and positive entry the liquidation price lies strictly between bankruptcy and entry price on the losing side (exact arithmetic, plus a '
+        'finite binary64 sweep of the coefficients with the bound in the statement); a forced close happens exactly when the mode is isolated, the position '
+        'is open and the range contains the liquidation price - as a reduce-only market order for the whole position on the closing side at the bankruptcy '
+        'price - and never in cross/spot; its effect on the C03 account model is: position flat, wallet minus entry value/leverage minus the fee, nothing '
+        'else touched. The check model is compared with the real _check_for_liquidations on real objects (averaged entries, exact touches decided bit-exactly '
+        'at binary64), every liquidation check of real isolated sessions is re-decided by Coq, and no open position may survive a minute whose range '
+        'contains its liquidation price.',
+   note='Trusted: Coq kernel + vm_compute (PrimFloat for bit-exact decisions); translator py2v; Model/Liquidation.v + Model/Futures.v (hand-written); harness/c09.py, '
+        'driver.py, engine.py. The cancellation of resting orders after a forced close is the C10 close clause (trace monitors).',
+   tech='Rocq proof over source-regenerated kernels + account model; correspondence; trace monitors re-decided by Coq', ref='DESIGN.md section 6 (C09)')
 NA = {}
 def main():
     props = [json.loads(l)['id'] for l in open(f'{V}/properties.jsonl')]
